@@ -108,7 +108,7 @@ extern ssize_t mpt_encode_cobs(MPT_STRUCT(encode_state) *info, const struct iove
 		if (info->_ctx) {
 			--len;
 		}
-		tmp.iov_base = (void *) src;
+		tmp.iov_base = cobs->iov_base;
 		while (len--) {
 			tmp.iov_len  = pos;
 			if ((pos = mpt_memrchr(&tmp, 1, 0)) < 0) {
